@@ -202,6 +202,8 @@ impl TypePathType {
                     "BinaryHeap" => parse_quote!(#alloc_crate_path::collections::BinaryHeap),
                     "VecDeque" => parse_quote!(#alloc_crate_path::collections::VecDeque),
                     "LinkedList" => parse_quote!(#alloc_crate_path::collections::LinkedList),
+                    "Duration" => parse_quote!(::core::time::Duration),
+                    "PhantomData" => parse_quote!(::core::marker::PhantomData),
                     "Range" => parse_quote!(::core::ops::Range),
                     "RangeInclusive" => parse_quote!(::core::ops::RangeInclusive),
                     "NonZeroI8" => parse_quote!(::core::num::NonZeroI8),
